@@ -122,6 +122,10 @@ fn kmeans_valid_obs<F: Float, D: Distance<F> + std::fmt::Debug>(v: &KmV<F, D>, x
     ob.u1("n_runs", v.n_runs()).f1("tolerance", v.tolerance()).u1("max_n_iterations", v.max_n_iterations() as usize).u1("n_clusters", v.n_clusters());
     ob.st("init_method", format!("{:?}", v.init_method())).st("rng", format!("{:?}", v.rng())).st("dist_fn", format!("{:?}", v.dist_fn()));
     let ds = Dataset::from(x.clone());
+    if matches!(v.init_method(), KMeansInit::KMeansPara) {
+        ob.st("refit.skipped", "k-means|| initialisation is not run-to-run deterministic");
+        return ob.done();
+    }
     match v.fit(&ds) {
         Ok(m) => ob.sub("refit", kmeans_obs(&m, q)),
         Err(e) => ob.st("refit.error", e.to_string()),
@@ -134,6 +138,11 @@ fn kmeans_param_points<F: Float, D: Distance<F> + Clone>(d: D) -> Vec<(&'static 
         ("default", KMeans::params_with(3, rng(42), d.clone())),
         ("nondefault1", KMeans::params_with(2, rng(1), d.clone()).n_runs(3).tolerance(F::cast(0.05)).max_n_iterations(7).init_method(KMeansInit::Random)),
         ("nondefault2", KMeans::params_with(3, rng(2), d.clone()).n_runs(1).tolerance(F::cast(1e-6)).max_n_iterations(50).init_method(KMeansInit::Precomputed(ndarray::array![[F::cast(-3.0), F::cast(-3.0)], [F::cast(0.0), F::cast(2.0)], [F::cast(2.0), F::cast(-1.0)]]))),
+        // boundary points: smallest legal values of every integer parameter, extreme tolerances
+        ("one_cluster_one_run_one_iteration", KMeans::params_with(1, rng(4), d.clone()).n_runs(1).max_n_iterations(1).tolerance(F::min_positive_value())),
+        ("many_runs_huge_tolerance", KMeans::params_with(2, rng(5), d.clone()).n_runs(4).max_n_iterations(u64::MAX).tolerance(F::cast(1e30)).init_method(KMeansInit::KMeansPlusPlus)),
+        // k-means|| draws candidates in a rayon loop (order not fixed): accessors only, no refit
+        ("kmeans_para_init", KMeans::params_with(2, rng(6), d.clone()).init_method(KMeansInit::KMeansPara)),
         ("invalid_zero_clusters", KMeans::params_with(0, rng(3), d.clone())),
         ("invalid_tolerance", KMeans::params_with(3, rng(3), d).tolerance(F::cast(-1.0))),
     ]
@@ -150,6 +159,9 @@ fn kmeans_params(r: &mut Runner) {
                 Err(e) => ob.st("check_verdict", format!("err: {}", e)),
             };
             // fitting through the unchecked builder (ParamGuard blanket impl)
+            if format!("{:?}", p).contains("KMeansPara") {
+                return ob.done();
+            }
             match p.fit(&Dataset::from(x.clone())) {
                 Ok(m) => ob.sub("refit", kmeans_obs(&m, &q)),
                 Err(e) => ob.st("refit.error", e.to_string()),
@@ -174,10 +186,10 @@ fn kmeans_valid_params(r: &mut Runner) {
         let obs = |v: &KmV<F, D>| kmeans_valid_obs(v, &x, &q);
         round_trip(o, &Spec::full(&obs), &v);
     }
-    for (name, p) in kmeans_param_points::<f64, _>(L1Dist).into_iter().take(3) {
+    for (name, p) in kmeans_param_points::<f64, _>(L1Dist).into_iter().filter(|(n, _)| !n.starts_with("invalid")) {
         r.inst(&format!("f64/L1/{}", name), |o| go(o, p));
     }
-    for (name, p) in kmeans_param_points::<f32, _>(LpDist(2.5f32)).into_iter().take(3) {
+    for (name, p) in kmeans_param_points::<f32, _>(LpDist(2.5f32)).into_iter().filter(|(n, _)| !n.starts_with("invalid")) {
         r.inst(&format!("f32/Lp(2.5)/{}", name), |o| go(o, p));
     }
 }
@@ -250,6 +262,8 @@ fn gmm_param_points<F: Float>() -> Vec<(&'static str, GmP<F>)> {
         ("default", GaussianMixtureModel::params_with_rng(2, rng(42))),
         ("nondefault1", GaussianMixtureModel::params_with_rng(3, rng(1)).tolerance(F::cast(1e-2)).reg_covariance(F::cast(1e-2)).n_runs(2).max_n_iterations(15).init_method(GmmInitMethod::Random)),
         ("nondefault2", GaussianMixtureModel::params_with_rng(2, rng(9)).tolerance(F::cast(0.5)).reg_covariance(F::cast(0.0)).n_runs(1).max_n_iterations(3).covariance_type(GmmCovarType::Full)),
+        ("one_cluster_one_run_one_iteration", GaussianMixtureModel::params_with_rng(1, rng(4)).n_runs(1).max_n_iterations(1).tolerance(F::min_positive_value()).reg_covariance(F::cast(1e-6))),
+        ("huge_tolerance_many_iterations", GaussianMixtureModel::params_with_rng(2, rng(5)).n_runs(3).max_n_iterations(u64::MAX).tolerance(F::cast(1e30)).reg_covariance(F::cast(10.0))),
         ("invalid_zero_clusters", GaussianMixtureModel::params_with_rng(0, rng(3))),
         ("invalid_reg_covar", GaussianMixtureModel::params_with_rng(2, rng(3)).reg_covariance(F::cast(-1e-3))),
     ]
@@ -287,10 +301,10 @@ fn gmm_valid_params(r: &mut Runner) {
         let obs = |v: &GmV<F>| gmm_valid_obs(v, &x);
         round_trip(o, &Spec::full(&obs), &v);
     }
-    for (name, p) in gmm_param_points::<f64>().into_iter().take(3) {
+    for (name, p) in gmm_param_points::<f64>().into_iter().filter(|(n, _)| !n.starts_with("invalid")) {
         r.inst(&format!("f64/{}", name), |o| go(o, p));
     }
-    for (name, p) in gmm_param_points::<f32>().into_iter().take(3) {
+    for (name, p) in gmm_param_points::<f32>().into_iter().filter(|(n, _)| !n.starts_with("invalid")) {
         r.inst(&format!("f32/{}", name), |o| go(o, p));
     }
 }
@@ -338,6 +352,8 @@ fn dbscan_valid_params(r: &mut Runner) {
     r.inst("f64/L2/kdtree/eps0.9/min4", |o| go::<f64, _>(o, 4, 0.9, L2Dist, CommonNearestNeighbour::KdTree));
     r.inst("f64/L1/balltree/eps1.3/min3", |o| go::<f64, _>(o, 3, 1.3, L1Dist, CommonNearestNeighbour::BallTree));
     r.inst("f32/Lp(3)/linear/eps1.1/min5", |o| go::<f32, _>(o, 5, 1.1, LpDist(3.0f32), CommonNearestNeighbour::LinearSearch));
+    r.inst("f64/L2/kdtree/eps1e30/min2", |o| go::<f64, _>(o, 2, 1e30, L2Dist, CommonNearestNeighbour::KdTree));
+    r.inst("f64/L2/linear/eps_min_positive/min_huge", |o| go::<f64, _>(o, usize::MAX, f64::MIN_POSITIVE, L2Dist, CommonNearestNeighbour::LinearSearch));
 }
 
 fn optics_unit(r: &mut Runner) {
@@ -414,6 +430,12 @@ fn optics_analysis(r: &mut Runner) {
     r.inst("f64/eps1.2", |o| go::<f64>(o, 1.2));
     r.inst("f64/eps0.3(mostly noise)", |o| go::<f64>(o, 0.3));
     r.inst("f32/eps1.2", |o| go::<f32>(o, 1.2));
+    r.inst("f64/duplicate_points(distances exactly 0)", |o| {
+        let x: Array2<f64> = ndarray::array![[1.0, 1.0], [1.0, 1.0], [1.0, 1.0], [4.0, 4.0], [4.0, 4.0], [9.0, 9.0]];
+        let res = Optics::params::<f64>(2).tolerance(0.5).transform(x.view()).expect("valid");
+        let obs = |a: &OpticsAnalysis<f64>| analysis_obs(a);
+        round_trip(o, &Spec::full(&obs), &res);
+    });
     r.inst("f64/empty", |o| {
         let x: Array2<f64> = Array2::zeros((0, 2));
         let res = Optics::params::<f64>(3).tolerance(1.0).transform(x.view()).expect("valid");
@@ -437,6 +459,8 @@ fn optics_points<F: Float, D: Distance<F> + Clone>(d: D) -> Vec<(&'static str, O
         ("default(min_points=2)", Optics::params_with(2, d.clone(), CommonNearestNeighbour::KdTree)),
         ("nondefault1", Optics::params_with(4, d.clone(), CommonNearestNeighbour::BallTree).tolerance(F::cast(1.5))),
         ("nondefault2", Optics::params_with(3, d.clone(), CommonNearestNeighbour::LinearSearch).tolerance(F::cast(0.1 + 0.2))),
+        ("huge_min_points_tiny_tolerance", Optics::params_with(usize::MAX, d.clone(), CommonNearestNeighbour::LinearSearch).tolerance(F::min_positive_value())),
+        ("min_points2_huge_tolerance", Optics::params_with(2, d.clone(), CommonNearestNeighbour::BallTree).tolerance(F::cast(1e30))),
         ("invalid_min_points", Optics::params_with(1, d.clone(), CommonNearestNeighbour::KdTree)),
         ("invalid_tolerance", Optics::params_with(3, d, CommonNearestNeighbour::KdTree).tolerance(F::cast(0.0))),
     ]
@@ -474,10 +498,10 @@ fn optics_valid_params(r: &mut Runner) {
         let obs = |v: &OpV<F, D>| optics_valid_obs(v, &x);
         round_trip(o, &Spec::full(&obs), &v);
     }
-    for (name, p) in optics_points::<f64, _>(LpDist(2.5f64)).into_iter().take(3) {
+    for (name, p) in optics_points::<f64, _>(LpDist(2.5f64)).into_iter().filter(|(n, _)| !n.starts_with("invalid")) {
         r.inst(&format!("f64/Lp(2.5)/{}", name), |o| go(o, p));
     }
-    for (name, p) in optics_points::<f32, _>(L2Dist).into_iter().take(3) {
+    for (name, p) in optics_points::<f32, _>(L2Dist).into_iter().filter(|(n, _)| !n.starts_with("invalid")) {
         r.inst(&format!("f32/L2/{}", name), |o| go(o, p));
     }
 }
@@ -545,6 +569,8 @@ fn gnb_params(r: &mut Runner) {
     }
     r.inst("f64/default", |o| go::<f64>(o, None));
     r.inst("f64/var_smoothing=0.5", |o| go::<f64>(o, Some(0.5)));
+    r.inst("f64/var_smoothing=0", |o| go::<f64>(o, Some(0.0)));
+    r.inst("f64/var_smoothing=1e300", |o| go::<f64>(o, Some(1e300)));
     r.inst("f64/var_smoothing=0.1+0.2", |o| go::<f64>(o, Some(0.1 + 0.2)));
     r.inst("f32/default", |o| go::<f32>(o, None));
     r.inst("f32/var_smoothing=10", |o| go::<f32>(o, Some(10.0)));
@@ -602,6 +628,8 @@ fn mnb_params(r: &mut Runner) {
     }
     r.inst("f64/default", |o| go::<f64>(o, None));
     r.inst("f64/alpha=0.25", |o| go::<f64>(o, Some(0.25)));
+    r.inst("f64/alpha=0", |o| go::<f64>(o, Some(0.0)));
+    r.inst("f64/alpha=1e300", |o| go::<f64>(o, Some(1e300)));
     r.inst("f64/alpha=0.1+0.2", |o| go::<f64>(o, Some(0.1 + 0.2)));
     r.inst("f32/default", |o| go::<f32>(o, None));
     r.inst("f32/alpha=3", |o| go::<f32>(o, Some(3.0)));
